@@ -130,7 +130,19 @@ func runC20(c *fw.Case) {
 			return
 		}
 		for i := range recs {
+			pre := w.Size() // where the record is about to start: the other way a caller remembers a rollback target
 			o, err := w.Write(recs[i])
+			if err == nil && r.Intn(2) == 0 {
+				o = pre
+			}
+			if err == nil && r.Intn(6) == 0 {
+				// a seek past the end must be refused and must change nothing: the program simply goes on
+				if e := w.Seek(w.Size() + 1 + uint64(r.Intn(40))); e == nil {
+					c.Violate("recordio/seek-past-the-end-accepted", "Seek(Size()+k) returned nil")
+					return
+				}
+				c.Obs("refused_seeks", 1)
+			}
 			if err == nil && (r.Intn(5) == 0 || (i == len(recs)-1 && r.Intn(2) == 0)) {
 				for j := r.Intn(3); j > 0 && err == nil; j-- {
 					if r.Intn(4) == 0 {
@@ -200,7 +212,11 @@ func runC20(c *fw.Case) {
 			break
 		}
 		if err != nil {
-			c.Violate("harness/native-read", "%v", err)
+			sig := "harness/native-read"
+			if rollback {
+				sig = "recordio/rolled-back-file/native-read-error"
+			}
+			c.Violate(sig, "%v (layout: %v)", err, layoutErr)
 			_ = rd.Close()
 			return
 		}
